@@ -5,7 +5,7 @@
      for (pp : _fp.get_presence())                       -- the SOURCE's trait table, ascending fnum
        if (pp.present && to->_fp.has(fnum) && !to->_fp.get(fnum))
          { if (pp.group && (gb = find_group(fnum)))
-             { gb1 = to->find_group(fnum); for (qq : gb->_msgs) { grc = gb1->create_group(true); qq->copy_legal(grc); *gb1 += grc; } }
+             { gb1 = to->find_add_group(fnum); for (qq : gb->_msgs) { grc = gb1->create_group(true); qq->copy_legal(grc); *gb1 += grc; } }
            to->add_field(get_field(fnum)->copy()); } *)
 From Coq Require Import NArith ZArith List Bool.
 From F8 Require Import Codec.Bytes Codec.Meta.
@@ -30,11 +30,13 @@ Definition copy_step (fields : list (N * list N)) (gcopy : list (N * list elem_c
   if t_present pp && legal_absent to f then
     bind (if t_group pp then
             match map_find f gcopy with
-            | None | Some [] => Ok to
+            | None => Ok to                                  (* find_group(fnum) == nullptr in the source *)
             | Some cs =>
-              match map_find f (mb_groups to), find_sub (mb_subs to) f with
-              | Some _, Some sg => copy_elems sg f cs to
-              | _, _ => OOB site_copy_null
+              (* since /repo 6620c2f: gb1 = to->find_add_group(fnum) -- creates the target's group when
+                 its deep constructor did not (a null class is still a null dereference) *)
+              match find_add_group to f with
+              | Ok (to1, sg) => copy_elems sg f cs to1
+              | Exc e => Exc e | OOB s => OOB s | Diverge => Diverge | Fuel => Fuel
               end
             end
           else Ok to)
